@@ -142,7 +142,7 @@ def unary(t, full):
 
 def universe(tier):
     L1 = [prim(p) for p in PRIMS] + [prim(n) for n in NZ] + [UNIT, PH_U8, PH_STR, RFULL, STRING, BOXSTR]
-    derived_leaves = [inst(n) for n in ["P1", "Z0", "Z16", "P64", "NT", "T3", "ZN", "ZA", "ZB", "ZR", "ZT3", "NT16", "EW12", "EZ", "EU", "ED", "EDZ", "EDM", "D1", "D1Z", "DN", "DV", "DT", "DU", "DZ", "RAW", "E1", "E2", "N1"]]
+    derived_leaves = [inst(n) for n in ["P1", "Z0", "Z16", "P64", "NT", "T3", "ZN", "ZA", "ZB", "ZR", "ZT3", "NT16", "EW12", "EZ", "EU", "EZS", "EZ16", "EO", "ED", "EDZ", "EDM", "D1", "D1Z", "DN", "DV", "DT", "DU", "DZ", "RAW", "E1", "E2", "N1"]]
     L2 = [prim(p) for p in ["u8", "u16", "u32", "u64", "u128", "bool", "char", "f64"]] + [UNIT, prim("NonZeroU16"), STRING, PH_U8]
     L2 += [inst(n) for n in ["P1", "Z0", "Z16", "D1", "E1", "T3"]]
     terms = []
@@ -215,6 +215,7 @@ def universe(tier):
     gens += [inst("GP", [vec(prim("u8")), T(q, True, True, q, 0)]) for q in ["String", "(u8, u16)", "Vec<u8>"]]
     gens += [inst("GD", [vec(prim("u8")), n]) for n in (0, 1, 3)]
     gens += [inst("GC", [n]) for n in (0, 1, 3)] + [inst("ZCN", [n]) for n in (0, 1, 3)]
+    gens += [inst("GC2", [2, 3]), inst("GC2", [3, 2]), inst("GC2", [0, 1]), inst("ZC2", [2, 3]), inst("ZC2", [3, 2])]
     # nesting of generic items
     g1v = inst("G1", [vec(prim("u8"))])
     gens += [inst("G1", [g1v]), inst("G1", [inst("G2", [STRING, vec(prim("u32"))])]), inst("W", [inst("ZG", [prim("u16")])]), inst("G1", [vec(inst("ZG", [prim("u32")]))]),
